@@ -213,7 +213,7 @@ class Prop(PropBase):
     ID = "C25"
     tiers = {
         "quick": {"runs": 320, "selftest_runs": 4},
-        "thorough": {"runs": 6000, "selftest_runs": 32},
+        "thorough": {"runs": 18000, "selftest_runs": 32},
     }
     rule = ("one run = one (entries, alloc_ways, free_ways, init mask) configuration driven for 80-240 cycles by a seeded "
             "phase plan (random / fill / drain / ping-pong / gap (only higher ways request) / replace / flush / contend / "
